@@ -210,6 +210,7 @@ func (publisher *Publisher) Places() map[string]*place {
 		// the document rather than in the random order of a map.
 		places := publisher.doc.Places()
 		placeTags := placesInDocumentOrder(publisher.doc)
+		reserved := sourceKeys(publisher.doc)
 
 		// Get all of the unique place names.
 		for _, placeTag := range placeTags {
@@ -229,6 +230,10 @@ func (publisher *Publisher) Places() map[string]*place {
 
 			key := alnumOrDashRegexp.
 				ReplaceAllString(strings.ToLower(prettyName), "-")
+
+			// A place must not replace the page of a source or one of the
+			// pages that always have the same name, like places.html.
+			key = getUniqueKey(nil, key, nil, reserved)
 
 			if _, ok := publisher.placesMap[key]; !ok {
 				country := placeTag.Country()
